@@ -16,7 +16,7 @@ RULE = ("structures with both directions: standard INQUIRY, VPD 80h/83h/86h/B2h/
         "STATUS, TransportIDs. (a) canonical bytes b from the independent encoders: marshall(unmarshall(b)) == b; (b) unmarshall(marshall(d)) "
         "contains d for d = unmarshall(b); (c) for every field f of every fixed-layout structure and mode page and every alphabet value v: "
         "parse b, set f=v, rebuild, result == deposit(b, f, v) (only f's bits change), from the all-zero and the all-ones baseline. Values: every "
-        "field over its alphabet, k deviations (k=1 quick, 2 thorough); lists with 0..3 entries. Non-trivial = any non-zero field or entry.")
+        "field over its alphabet, k deviations (k=1 quick, 2 thorough); lists with 0..3 entries; every rebuild also from the parsed object itself (twice) and with all dictionaries in the opposite key order; mode data with 8/16 (LONGLBA=1: 16/32) bytes of block descriptors in front of the page: read, change one field, write back, page part compared. Non-trivial = any non-zero field or entry.")
 ASSUMPTIONS = [
     "canonical = what a device returns when the library's vocabulary can express all of it: 96-byte standard INQUIRY data, mode data without block descriptors (DBD=1) and one page, reserved and vendor bytes zero, minimal NUL padding of iSCSI names",
     "oracle: vf/spec/responses.py encoders and vf/spec/bits.py deposit; field positions as in DESIGN.md Appendix B",
@@ -191,6 +191,32 @@ def run_case(case, obs=None):
             off = (8 if ten else 4) + (2 if sub is None else 4)
             out += rmw(codec, b, fields, off, lambda d: d["mode_pages"][0], tag, 1)
             out += rmw(codec, b, R.MODE_HDR10 if ten else R.MODE_HDR6, 0, lambda d: d, tag + "/header", 1)
+        if do_rmw and not out:
+            # the same answer with block descriptors in front of the page (8 bytes each; 16 bytes each with LONGLBA=1): the library does
+            # not carry block descriptors through a rebuild, so only the PAGE part is compared - read, change one field, write back
+            un, ma = codecs()[codec]
+            page_b = R.mode_page(page, sub, vals)
+            fields, _ = R.MODE_PAGES[(page, sub)]
+            for longlba, bd in ((0, bytes(range(1, 9))), (0, bytes(range(1, 17)))) + (((1, bytes(range(0x21, 0x31))), (1, bytes(range(0x21, 0x41)))) if ten else ()):
+                h2 = dict(hdr)
+                if ten:
+                    h2["longlba"] = longlba
+                b2 = R.mode_data(ten, h2, bd, [page_b])
+                where = "%s with %d bytes of block descriptors%s" % (tag, len(bd), ", LONGLBA=1" if longlba else "")
+                try:
+                    d = un(bytearray(b2))
+                    f0 = fields[0]
+                    if d["mode_pages"][0].get(f0[0]) != vals.get(f0[0], 0):
+                        out.append(("%s/blockdesc/parse" % tag, "%s: page field %s parsed as %r, the answer carries %r" % (where, f0[0], d["mode_pages"][0].get(f0[0]), vals.get(f0[0], 0))))
+                        continue
+                    newv = (vals.get(f0[0], 0) ^ 1) & ((1 << f0[3]) - 1)
+                    d["mode_pages"][0][f0[0]] = newv
+                    rebuilt = bytes(ma(d))
+                    want_page = bits.deposit(page_b, f0[1] + (2 if sub is None else 4), f0[2], f0[3], newv)
+                    if not rebuilt.endswith(want_page):
+                        out.append(("%s/blockdesc/rmw" % tag, "%s: after changing %s the rebuilt list ends with %s, expected the page %s" % (where, f0[0], rebuilt[-len(want_page):].hex(), want_page.hex())))
+                except Exception as e:   # noqa: BLE001
+                    out.append(("%s/blockdesc/raises" % tag, "%s: %s: %s" % (where, type(e).__name__, e)))
         return out
     if kind == "bytes":
         _, codec, tag, c04case = case
